@@ -13,7 +13,7 @@ if [ "$1" = "-e" ]; then
   sed -i "$2" "$wt/$3" || exit 3
   shift 3
 else
-  git -C "$wt" apply "$1" || { echo "patch does not apply"; exit 3; }
+  git -C "$wt" apply "$(readlink -f "$1")" || { echo "patch does not apply"; exit 3; }
   shift 1
 fi
 [ "$1" = "--" ] && shift
